@@ -156,6 +156,7 @@ theorem noBypass_of_noInternal {e : Ev} (he : NoInternalLogin e) : NoBypassLogin
     | garbage => cases i <;> trivial
   | ping c m => trivial
   | newProxy c n => trivial
+  | closeProxy c n => trivial
   | drop c => trivial
   | user n => trivial
 
@@ -229,6 +230,11 @@ theorem step_allCfg {e : Ev} (he : NoBypassLogin P e) (h : AllCfg srv) :
     · split
       · exact h
       · exact allCfg_updSession (fun _ => rfl) h
+  | closeProxy c n =>
+    simp only [stepG, handleCloseProxy]
+    split
+    · exact h
+    · exact allCfg_updSession (fun _ => rfl) h
   | drop c =>
     simp only [stepG, sessionEnd]
     intro s hs
@@ -424,6 +430,218 @@ theorem workconn_scope_fixed : WorkconnScopeFull true := by
   · rw [hw] at h1; cases h1
   · exact h1
 
+/-! ## 2a. `lastPing` is refreshed by accepted heartbeats only - every event, every history
+
+  server/control.go: `lastPing.Store` is called in `NewControl` and, after `VerifyPing` succeeded, in `handlePing`
+  (regenerated source facts `lastPingStores`, `handlePingOrder`).  No other message on the control connection
+  (NewProxy, CloseProxy), no first message of another connection naming the session (work / visitor connection,
+  refused login) and no user connection touches it. -/
+
+/-- the liveness record (run id, control connection, lastPing) of `s'` is that of a session of `srv` -/
+def Kept (srv : Srv) (s' : Session) : Prop :=
+  ∃ s ∈ srv.sessions, s.runId = s'.runId ∧ s.ctl = s'.ctl ∧ s.lastPing = s'.lastPing
+
+theorem kept_updSession {rid : RunId} {f : Session → Session} {s' : Session}
+    (h : s' ∈ (updSession srv rid f).sessions)
+    (hf : ∀ x, (f x).runId = x.runId ∧ (f x).ctl = x.ctl ∧ (f x).lastPing = x.lastPing) : Kept srv s' := by
+  obtain ⟨s, hs, e⟩ := mem_updSession h
+  subst e
+  refine ⟨s, hs, ?_⟩
+  split
+  · obtain ⟨a, b, c⟩ := hf s
+    exact ⟨a.symm, b.symm, c.symm⟩
+  · exact ⟨rfl, rfl, rfl⟩
+
+/-- event `e` is a heartbeat that the plugins passed and the session's verifier accepted, on the control
+    connection of a session with run id `rid` -/
+def AcceptedPingOn (P : Plugins) (pr : Prim) (cfg : Cfg) (srv : Srv) (e : Ev) (rid : RunId) : Prop :=
+  ∃ c m s m', e = .ping c m ∧ byCtl srv c = some s ∧ s.runId = rid ∧ P.ping m = some m' ∧
+    verifyPing pr cfg srv.subjects s.vk m' = true
+
+/-- ONE STEP, EVERY EVENT: a session of the state afterwards either has the liveness record of a session before,
+    or is a fresh session of an accepted login (`lastPing` = the moment of `NewControl`), or the event is an
+    accepted heartbeat on a session with its run id and `lastPing` moved by exactly that one -/
+theorem lastPing_step {e : Ev} {s' : Session} (h : s' ∈ (stepG fx P pr cfg srv e).1.sessions) :
+    Kept srv s'
+    ∨ (s'.lastPing = 0 ∧ ∃ i m, e = .first i s'.ctl (.login m) ∧ LoginAccepted P pr cfg srv i m)
+    ∨ (AcceptedPingOn P pr cfg srv e s'.runId ∧
+        ∃ t ∈ srv.sessions, t.runId = s'.runId ∧ t.ctl = s'.ctl ∧ s'.lastPing = t.lastPing + 1) := by
+  have keep : s' ∈ srv.sessions → Kept srv s' := fun hs => ⟨s', hs, rfl, rfl, rfl⟩
+  cases e with
+  | first i c m =>
+    cases m with
+    | login m =>
+      simp only [stepG, handleFirstG] at h
+      cases hp : P.login m with
+      | none => simp only [hp] at h; exact Or.inl (keep h)
+      | some m' =>
+        simp only [hp, registerControl] at h
+        cases hv : verifyLogin pr cfg srv.subjects (verifierFor i m') m' with
+        | none => simp only [hv] at h; exact Or.inl (keep h)
+        | some sj =>
+          simp only [hv, List.mem_append, List.mem_filter, List.mem_singleton] at h
+          rcases h with ⟨hs, _⟩ | hs
+          · exact Or.inl (keep hs)
+          · subst hs
+            exact Or.inr (Or.inl ⟨rfl, i, m, rfl, m', hp, by simp [hv]⟩)
+    | work m =>
+      left
+      simp only [stepG, handleFirstG] at h
+      by_cases hc : (registerWork fx P pr cfg srv i c m).2.closed = true
+      · rw [workconn_refused hc] at h; exact keep h
+      · obtain ⟨t, _, _, _, _, _, e⟩ := workconn_scope_partial (by simpa using hc)
+        rw [e] at h
+        exact kept_updSession h (fun _ => ⟨rfl, rfl, rfl⟩)
+    | visitor rid ok =>
+      left
+      have : (stepG fx P pr cfg srv (.first i c (.visitor rid ok))).1 = srv := by
+        simp only [stepG, handleFirstG]
+        split
+        · rfl
+        · split <;> rfl
+      rw [this] at h; exact keep h
+    | other => exact Or.inl (keep h)
+    | garbage => exact Or.inl (keep h)
+  | ping c m =>
+    cases hs : byCtl srv c with
+    | none =>
+      left
+      simp only [stepG, handlePing, hs] at h
+      exact keep h
+    | some s =>
+      rcases ping_cases (P := P) (pr := pr) (cfg := cfg) (m := m) hs with ⟨m', hp, hv, e⟩ | ⟨_, e⟩
+      · simp only [stepG, e] at h
+        obtain ⟨t, ht, et⟩ := mem_updSession h
+        by_cases hr : t.runId = s.runId
+        · rw [if_pos hr] at et
+          subst et
+          exact Or.inr (Or.inr ⟨⟨c, m, s, m', rfl, hs, hr.symm, hp, hv⟩, t, ht, rfl, rfl, rfl⟩)
+        · rw [if_neg hr] at et
+          subst et
+          exact Or.inl (keep ht)
+      · simp only [stepG, e] at h
+        exact Or.inl (keep h)
+  | newProxy c n =>
+    left
+    simp only [stepG, handleNewProxy] at h
+    split at h
+    · exact keep h
+    · split at h
+      · exact keep h
+      · exact kept_updSession h (fun _ => ⟨rfl, rfl, rfl⟩)
+  | closeProxy c n =>
+    left
+    simp only [stepG, handleCloseProxy] at h
+    split at h
+    · exact keep h
+    · exact kept_updSession h (fun _ => ⟨rfl, rfl, rfl⟩)
+  | drop c =>
+    left
+    simp only [stepG, sessionEnd, List.mem_filter] at h
+    exact keep h.1
+  | user n =>
+    left
+    simp only [stepG, takeWork] at h
+    split at h
+    · exact keep h
+    · split at h
+      · exact keep h
+      · exact kept_updSession h (fun _ => ⟨rfl, rfl, rfl⟩)
+
+/-- OVER EVERY HISTORY in which no heartbeat is accepted on run id `rid` (invalid heartbeats, NewProxy / CloseProxy
+    requests, work and visitor connections, refused logins, user connections - in any number and order): the
+    `lastPing` of a session with that run id is still the one a session with that run id started the history
+    with, or that of its own login (0).  "Heartbeats without a valid key do not keep a session alive", and nothing
+    else does either. -/
+theorem lastPing_frozen_without_valid_ping (evs : List Ev) {rid : RunId}
+    (hno : ∀ pre e post, evs = pre ++ e :: post → ¬ AcceptedPingOn P pr cfg (runG fx P pr cfg srv pre) e rid)
+    {s' : Session} (h : s' ∈ (runG fx P pr cfg srv evs).sessions) (hr : s'.runId = rid) :
+    s'.lastPing = 0 ∨ ∃ s ∈ srv.sessions, s.runId = rid ∧ s.lastPing = s'.lastPing := by
+  induction evs generalizing srv with
+  | nil => exact Or.inr ⟨s', h, hr, rfl⟩
+  | cons e rest ih =>
+    simp only [runG, List.foldl_cons] at h
+    have hno' : ∀ pre e' post, rest = pre ++ e' :: post →
+        ¬ AcceptedPingOn P pr cfg (runG fx P pr cfg (stepG fx P pr cfg srv e).1 pre) e' rid := by
+      intro pre e' post he
+      have := hno (e :: pre) e' post (by rw [he]; rfl)
+      simpa only [runG, List.foldl_cons] using this
+    rcases ih hno' h with h0 | ⟨s1, hs1, hr1, hl1⟩
+    · exact Or.inl h0
+    · rcases lastPing_step hs1 with ⟨s, hs, e1, _, e3⟩ | ⟨h0, _⟩ | ⟨hacc, _⟩
+      · exact Or.inr ⟨s, hs, by rw [e1, hr1], by rw [e3, hl1]⟩
+      · exact Or.inl (by rw [← hl1]; exact h0)
+      · rw [hr1] at hacc
+        exact absurd hacc (hno [] e rest rfl)
+
+/-! ## 2b. The key function: what "a valid key" proves
+
+  `Prim.H` = util.GetAuthKey is abstract.  Everything above says "accepted ⇒ key = H token ts".  That this means
+  "the peer knows the token" needs one ASSUMPTION about the function: for a fixed timestamp, different tokens give
+  different keys (`KeyInjective`).  It is an assumption about MD5 over token ++ decimal(ts) (no collision is
+  known between such strings; MD5 is not injective on all strings) and is EVALUATED on the implementation by the
+  engine (ops `authkey` / `authkey2`: util.GetAuthKey against two independent MD5s, tokens of 0 … 200 bytes,
+  proper prefixes and extensions of one another, multi-byte UTF-8, all magnitudes of timestamps).  Under it a key
+  computed from ANY other token - a prefix, an extension, a token that differs in one byte - is refused on all
+  three paths. -/
+
+def KeyInjective (H : Str → Int → Key) : Prop := ∀ a b ts, H a ts = H b ts → a = b
+
+/-- a login accepted from a network listener carries the key of the configured token and of no other token -/
+theorem login_proves_token (hinj : KeyInjective pr.H) (hm : cfg.method = .token) {m : Login} {rid : RunId}
+    (h : (handleFirstG fx Plugins.id pr cfg srv false conn (.login m)).2.reply = .loginOk rid) {tok : Str}
+    (hk : m.key = pr.H tok m.ts) : tok = cfg.token := by
+  obtain ⟨m', hp, e⟩ := login_token_network hm h
+  simp only [Plugins.id, Option.some.injEq] at hp
+  subst hp
+  exact hinj _ _ _ (hk.symm.trans e)
+
+/-- … so a login whose key was computed from another token is refused and changes nothing (the flag does not help) -/
+theorem other_token_login_refused (hinj : KeyInjective pr.H) (hm : cfg.method = .token) {tok : Str}
+    (hne : tok ≠ cfg.token) (m : Login) :
+    handleFirstG fx Plugins.id pr cfg srv false conn (.login { m with key := pr.H tok m.ts })
+      = (srv, { reply := .loginErr, closed := true }) := by
+  apply login_refused
+  rintro ⟨m', hp, hv⟩
+  simp only [Plugins.id, Option.some.injEq] at hp
+  subst hp
+  have hk : verifierFor false { m with key := pr.H tok m.ts } = .cfg := rfl
+  rw [hk] at hv
+  simp only [verifyLogin, hm] at hv
+  by_cases e : pr.H cfg.token m.ts = pr.H tok m.ts
+  · exact hne (hinj _ _ _ e).symm
+  · simp [e] at hv
+
+/-- HeartBeats scope on: a heartbeat whose key was computed from another token changes nothing -/
+theorem other_token_ping_refused (hinj : KeyInjective pr.H) (hm : cfg.method = .token) (hb : cfg.hb = true)
+    {s : Session} (hs : byCtl srv conn = some s) (hk : s.vk = .cfg) {tok : Str} (hne : tok ≠ cfg.token) (ts : Int) :
+    handlePing Plugins.id pr cfg srv conn { ts := ts, key := pr.H tok ts }
+      = (srv, { reply := .pongErr, closed := false }) := by
+  apply ping_scope_token hs hk hb hm (m' := { ts := ts, key := pr.H tok ts }) rfl
+  exact fun e => hne (hinj _ _ _ e)
+
+/-- NewWorkConns scope on: a work connection from the network whose key was computed from another token is refused
+    (closed, nothing pooled, state unchanged), whatever session it names -/
+theorem other_token_work_refused (hinj : KeyInjective pr.H) (hm : cfg.method = .token) (hw : cfg.wc = true)
+    {tok : Str} (hne : tok ≠ cfg.token) (rid : RunId) (ts : Int) :
+    (registerWork true Plugins.id pr cfg srv false conn { runId := rid, ts := ts, key := pr.H tok ts }).2.closed = true ∧
+    (registerWork true Plugins.id pr cfg srv false conn { runId := rid, ts := ts, key := pr.H tok ts }).1 = srv := by
+  have hc : (registerWork true Plugins.id pr cfg srv false conn { runId := rid, ts := ts, key := pr.H tok ts }).2.closed
+      = true := by
+    cases hcl : (registerWork true Plugins.id pr cfg srv false conn
+        { runId := rid, ts := ts, key := pr.H tok ts }).2.closed with
+    | true => rfl
+    | false =>
+      obtain ⟨s, m', _, hp, _, hor, _⟩ := workconn_scope_partial hcl
+      simp only [Plugins.id, Option.some.injEq] at hp
+      subst hp
+      rcases hor with h1 | h1 | h1
+      · simp [workVerifier] at h1
+      · rw [hw] at h1; cases h1
+      · simp only [keyOk, hm, decide_eq_true_eq] at h1
+        exact absurd (hinj _ _ _ h1).symm hne
+  exact ⟨hc, workconn_refused hc⟩
+
 /-! ## 4. Refused attempts leave nothing behind -/
 
 /-- a first message whose connection the server closes changes nothing: sessions (with their pools,
@@ -567,6 +785,11 @@ theorem new_session_only_by_login {e : Ev} {c : ConnId}
     · split at hnew
       · exact absurd hnew hold
       · exact absurd (mem_ctls_updSession hnew (fun _ => rfl)) hold
+  | closeProxy c' n =>
+    simp only [stepG, handleCloseProxy] at hnew
+    split at hnew
+    · exact absurd hnew hold
+    · exact absurd (mem_ctls_updSession hnew (fun _ => rfl)) hold
   | drop c' =>
     simp only [stepG, sessionEnd, ctls, List.mem_map, List.mem_filter] at hnew
     obtain ⟨s, ⟨hs, _⟩, e⟩ := hnew
@@ -791,6 +1014,10 @@ theorem step_subjects {e : Ev} {sub : Subject} (h : sub ∈ (stepG fx P pr cfg s
     split at h
     · exact h
     · split at h <;> exact h
+  | closeProxy c n =>
+    left
+    simp only [stepG, handleCloseProxy] at h
+    split at h <;> exact h
   | drop c => exact Or.inl h
   | user n =>
     left
@@ -1214,6 +1441,13 @@ theorem pooled_step {e : Ev} {c : ConnId} (h : c ∈ pooled (stepG fx P pr cfg s
     · split at h
       · exact h
       · exact pooled_updSession_sub (f := fun x => { x with proxies := x.proxies ++ [n] }) (fun _ _ hy => hy) h
+  | closeProxy c' n =>
+    left
+    simp only [stepG, handleCloseProxy] at h
+    split at h
+    · exact h
+    · exact pooled_updSession_sub (f := fun x => { x with proxies := x.proxies.filter (fun k => k ≠ n) })
+        (fun _ _ hy => hy) h
   | drop c' =>
     left
     simp only [stepG, sessionEnd, pooled, List.mem_flatMap, List.mem_filter] at h ⊢
@@ -1279,42 +1513,88 @@ theorem akLookup_mem {l : List (PubKey × Str)} {k : PubKey} {u : Str} (h : akLo
   · cases h1
   · exact h1
 
-/-- authorizedKeysFile configured: the ssh handshake succeeds only for a client that PROVES possession of
-    the private key of a key that is listed in the file as it is read at that moment -/
-theorem ssh_handshake_needs_key {file : Option (List (PubKey × Str))} {a : SshAuth} {u : Str}
-    (h : sshHandshake true file a = some u) :
-    ∃ k l, a = .pubkey k true ∧ file = some l ∧ (k, u) ∈ l := by
+/-- ANY `ssh.ServerConfig` with NoClientAuth off and no password / keyboard-interactive / gssapi callback: the only
+    request golang.org/x/crypto/ssh can accept is a publickey request for a key the PublicKeyCallback accepts,
+    signed by the client.  (Which fields NewGateway sets is a regenerated source fact: `sshCfgWrites`.) -/
+theorem ssh_only_pubkey_can_authenticate {sc : SshSrvCfg} {a : SshAuth} {u : Str}
+    (hn : sc.noClientAuth = false) (hp : sc.passwordCb = none) (hk : sc.kbdCb = none) (hg : sc.gssapi = none)
+    (h : sshTry sc a = .ok u) : ∃ k f, a = .pubkey k true ∧ sc.pubkeyCb = some f ∧ f k = some u := by
   cases a with
-  | none => simp [sshHandshake] at h
+  | none => simp [sshTry, hn] at h
+  | password pw => simp [sshTry, hp] at h
+  | kbd ans => simp [sshTry, hk] at h
+  | gssapi => simp [sshTry, hg] at h
   | pubkey k proved =>
-    simp only [sshHandshake, if_true, pubkeyCallback] at h
-    cases file with
-    | none => simp at h
-    | some l =>
-      simp only at h
-      cases hl : akLookup l k with
-      | none => simp [hl] at h
+    simp only [sshTry] at h
+    cases hf : sc.pubkeyCb with
+    | none => simp [hf] at h
+    | some f =>
+      simp only [hf] at h
+      cases hu : f k with
+      | none => simp [hu] at h
       | some u' =>
-        simp only [hl] at h
+        simp only [hu] at h
         cases proved with
         | false => simp at h
         | true =>
-          simp only [if_true, Option.some.injEq] at h
+          simp only [if_true, SshTry.ok.injEq] at h
           subst h
-          exact ⟨k, l, rfl, rfl, akLookup_mem hl⟩
+          exact ⟨k, f, rfl, rfl, hu⟩
+
+/-- the gateway's configuration, authorizedKeysFile configured or not: a password (ANY password, also the empty
+    one or the frp token), a keyboard-interactive exchange (any answers) and gssapi never authenticate -/
+theorem gw_ssh_other_methods_fail (akSet : Bool) (file : Option (List (PubKey × Str))) (pw : Str) (ans : List Str) :
+    sshTry (gwSshCfg akSet file) (.password pw) = .fail ∧ sshTry (gwSshCfg akSet file) (.kbd ans) = .fail ∧
+    sshTry (gwSshCfg akSet file) .gssapi = .fail := ⟨rfl, rfl, rfl⟩
+
+/-- whatever a client sends, in whatever order and number: the user-auth loop lets it in only through ONE of its
+    requests that was accepted (failures, retries and the 6-failure limit never add a way in) -/
+theorem sshAuthLoop_ok {sc : SshSrvCfg} {f nc : Nat} {reqs : List SshAuth} {u : Str}
+    (h : sshAuthLoop sc f nc reqs = some u) : ∃ a ∈ reqs, sshTry sc a = .ok u := by
+  induction reqs generalizing f nc with
+  | nil => simp [sshAuthLoop] at h
+  | cons a rest ih =>
+    simp only [sshAuthLoop] at h
+    split at h
+    · cases h
+    · cases ht : sshTry sc a with
+      | ok u' =>
+        simp only [ht, Option.some.injEq] at h
+        subst h
+        exact ⟨a, List.mem_cons_self, ht⟩
+      | abort => simp [ht] at h
+      | fail =>
+        simp only [ht] at h
+        obtain ⟨b, hb, e⟩ := ih h
+        exact ⟨b, List.mem_cons_of_mem _ hb, e⟩
+
+/-- authorizedKeysFile configured: the ssh handshake succeeds only for a client that PROVES possession of
+    the private key of a key that is listed in the file as it is read at that moment - whatever else it tries
+    (none, passwords, keyboard-interactive, gssapi, other keys, listed keys it cannot sign for) -/
+theorem ssh_handshake_needs_key {file : Option (List (PubKey × Str))} {reqs : List SshAuth} {u : Str}
+    (h : sshHandshake true file reqs = some u) :
+    ∃ k l, .pubkey k true ∈ reqs ∧ file = some l ∧ (k, u) ∈ l := by
+  obtain ⟨a, ha, ht⟩ := sshAuthLoop_ok h
+  obtain ⟨k, f, e, hf, hu⟩ := ssh_only_pubkey_can_authenticate (sc := gwSshCfg true file) rfl rfl rfl rfl ht
+  subst e
+  simp only [gwSshCfg, Option.some.injEq] at hf
+  subst hf
+  cases file with
+  | none => simp [pubkeyCallback] at hu
+  | some l => exact ⟨k, l, ha, rfl, akLookup_mem hu⟩
 
 /-- a client whose ssh handshake fails reaches nothing: no connection on the internal listener, the server
     state is literally unchanged (no session, no proxy, no work connection) -/
-theorem gw_refused_unchanged {akSet : Bool} {t : Tunnel} (h : sshHandshake akSet t.file t.auth = none) :
+theorem gw_refused_unchanged {akSet : Bool} {t : Tunnel} (h : sshHandshake akSet t.file t.reqs = none) :
     gwTunnel fx P pr cfg akSet srv t = (srv, .authFail) := by
   simp [gwTunnel, h]
 
 /-- authorizedKeysFile configured and the client has no authorized key it can sign for: no session -/
 theorem gw_unauthorized_no_session {t : Tunnel}
-    (h : ¬ ∃ k l u, t.auth = .pubkey k true ∧ t.file = some l ∧ (k, u) ∈ l) :
+    (h : ¬ ∃ k l u, .pubkey k true ∈ t.reqs ∧ t.file = some l ∧ (k, u) ∈ l) :
     gwTunnel fx P pr cfg true srv t = (srv, .authFail) := by
   apply gw_refused_unchanged
-  cases hh : sshHandshake true t.file t.auth with
+  cases hh : sshHandshake true t.file t.reqs with
   | none => rfl
   | some u =>
     obtain ⟨k, l, h1, h2, h3⟩ := ssh_handshake_needs_key hh
@@ -1324,10 +1604,10 @@ theorem gw_unauthorized_no_session {t : Tunnel}
     client was accepted by the verifier RegisterControl selected for it -/
 theorem gw_up_needs {akSet : Bool} {t : Tunnel} {rid : RunId} {name : Str}
     (h : (gwTunnel fx P pr cfg akSet srv t).2 = .up rid name) :
-    ∃ pu c, sshHandshake akSet t.file t.auth = some pu ∧ t.cmd = some c ∧
+    ∃ pu c, sshHandshake akSet t.file t.reqs = some pu ∧ t.cmd = some c ∧
       LoginAccepted P pr cfg srv true (gwLogin pr akSet t c) ∧ name = gwProxyName (gwUser pu c) c.name := by
   unfold gwTunnel at h
-  cases hh : sshHandshake akSet t.file t.auth with
+  cases hh : sshHandshake akSet t.file t.reqs with
   | none => simp [hh] at h
   | some pu =>
     cases hc : t.cmd with
@@ -1384,12 +1664,12 @@ theorem id_noAap : PluginNoAap Plugins.id := by
 /-- this tunnel is entitled to the exemption: authorizedKeysFile configured AND the ssh handshake succeeded
     (by `ssh_handshake_needs_key`: with a listed key the client proved to own) -/
 def TunnelAuthorized (akSet : Bool) (t : Tunnel) : Prop :=
-  akSet = true ∧ (sshHandshake akSet t.file t.auth).isSome = true
+  akSet = true ∧ (sshHandshake akSet t.file t.reqs).isSome = true
 
 theorem gw_allCfg {akSet : Bool} {t : Tunnel} (hP : PluginNoAap P) (hn : ¬ TunnelAuthorized akSet t)
     (h : AllCfg srv) : AllCfg (gwTunnel fx P pr cfg akSet srv t).1 := by
   unfold gwTunnel
-  cases hh : sshHandshake akSet t.file t.auth with
+  cases hh : sshHandshake akSet t.file t.reqs with
   | none => exact h
   | some pu =>
     have hak : akSet = false := by
@@ -1455,6 +1735,14 @@ inductive Obs
   | userServed (fromPool : Bool)
       -- a user connection was joined with a work connection; fromPool = that connection was in the pool of the
       -- session owning the proxy (so, by `pooled_only_by_accepted_work`, it passed the work-connection check)
+  | lastPingMoved (byPing : Bool)
+      -- `Control.lastPing` of a session changed while an operation ran; byPing = the operation was a heartbeat on
+      -- that session's control connection (whose key `pingMoved` judges)
+  | keyFn (agrees : Bool)
+      -- util.GetAuthKey(token, ts) was evaluated; agrees = it is hex(md5(token ++ decimal ts)) as computed by two
+      -- MD5 implementations that are not frp's (crypto/md5 in the harness, Frp.Md5 in the driver)
+  | keyInj (sameToken sameKey : Bool)
+      -- util.GetAuthKey was evaluated for two tokens and one timestamp
   deriving DecidableEq, Repr
 
 def holdsOn : Obs → Bool
@@ -1464,6 +1752,9 @@ def holdsOn : Obs → Bool
   | .refused same => same
   | .sshSession akSet au kv ap => (if akSet then au else kv) && (!ap || (akSet && au))
   | .userServed fromPool => fromPool
+  | .lastPingMoved byPing => byPing
+  | .keyFn agrees => agrees
+  | .keyInj sameToken sameKey => !sameKey || sameToken
 
 def Spec : Obs → Prop
   | .sessionCreated i a kv => kv = true ∨ (i = true ∧ a = true)
@@ -1473,6 +1764,9 @@ def Spec : Obs → Prop
   | .sshSession akSet au kv ap =>
     ((akSet = true ∧ au = true) ∨ (akSet = false ∧ kv = true)) ∧ (ap = true → akSet = true ∧ au = true)
   | .userServed fromPool => fromPool = true
+  | .lastPingMoved byPing => byPing = true
+  | .keyFn agrees => agrees = true
+  | .keyInj sameToken sameKey => sameKey = true → sameToken = true
 
 theorem holdsOn_sound (o : Obs) : holdsOn o = true ↔ Spec o := by
   cases o with
@@ -1482,6 +1776,26 @@ theorem holdsOn_sound (o : Obs) : holdsOn o = true ↔ Spec o := by
   | pingMoved a b c => cases a <;> cases b <;> cases c <;> simp [holdsOn, Spec]
   | refused a => simp [holdsOn, Spec]
   | userServed a => simp [holdsOn, Spec]
+  | lastPingMoved a => simp [holdsOn, Spec]
+  | keyFn a => simp [holdsOn, Spec]
+  | keyInj a b => cases a <;> cases b <;> simp [holdsOn, Spec]
+
+/-- the model's own steps satisfy the liveness predicate: a session whose liveness record is new and not that of a
+    fresh login was moved by a heartbeat -/
+theorem model_holdsOn_lastPing {e : Ev} {s' : Session} (h : s' ∈ (stepG fx P pr cfg srv e).1.sessions)
+    (hk : ¬ Kept srv s') (hf : s'.lastPing ≠ 0) :
+    holdsOn (.lastPingMoved (match e with | .ping _ _ => true | _ => false)) = true := by
+  rcases lastPing_step h with h1 | ⟨h0, _⟩ | ⟨⟨c, m, _, _, he, _⟩, _⟩
+  · exact absurd h1 hk
+  · exact absurd h0 hf
+  · subst he; rfl
+
+/-- under the assumption about the key function the injectivity predicate holds for every pair of tokens -/
+theorem model_holdsOn_keyInj {H : Str → Int → Key} (hinj : KeyInjective H) (a b : Str) (ts : Int) :
+    holdsOn (.keyInj (decide (a = b)) (decide (H a ts = H b ts))) = true := by
+  by_cases e : H a ts = H b ts
+  · simp [holdsOn, hinj a b ts e]
+  · simp [holdsOn, e]
 
 /-- the model's own user connection satisfies the predicate -/
 theorem model_holdsOn_user {name : Str} {c : ConnId} (h : (takeWork srv name).2 = some c) :
@@ -1512,7 +1826,7 @@ theorem model_holdsOn_login_oidc {m : Login} {rid : RunId} (hm : cfg.method = .o
 theorem model_holdsOn_ssh {akSet : Bool} {t : Tunnel} {rid : RunId} {name : Str} (hm : cfg.method = .token)
     (h : (gwTunnel fx Plugins.id pr cfg akSet srv t).2 = .up rid name) :
     ∃ c, t.cmd = some c ∧
-      holdsOn (.sshSession akSet (sshHandshake akSet t.file t.auth).isSome
+      holdsOn (.sshSession akSet (sshHandshake akSet t.file t.reqs).isSome
         (decide (pr.H c.token t.ts = pr.H cfg.token t.ts)) akSet) = true := by
   cases akSet with
   | true =>
@@ -1654,6 +1968,83 @@ theorem source_facts_gateway :
        ("return if ", "&ssh.Permissions{ Extensions: map[string]string{ \"user\": user, }, }, nil")] := by
   decide
 
+/- where `internal` comes from (the model takes it as an input of every first message; `NetEv` has none):
+  * `internal bool` is a PARAMETER of HandleListener, handleConnection, RegisterControl and RegisterWorkConn; every
+    identifier `internal` in server/ is such a parameter declaration or a use that resolves to one - it is never
+    assigned, redeclared or computed inside a function body;
+  * the two identifiers of the bypass condition are parameters of RegisterControl;
+  * no function or function literal of server/ takes a net.Conn / net.Listener / net.Addr and returns a bool (nothing
+    classifies a connection as internal by looking at it - e.g. at the type of its RemoteAddr());
+  * together with `source_facts.internalCalls` (each listener's handler passes a literal, the flag is only handed
+    down below that): the value is decided by WHICH accept loop took the connection, for every transport;
+  * RegisterWorkConn puts the configured verifier in charge under exactly `!internal`. -/
+open Frp.Gen.AuthGateFacts in
+theorem source_facts_internal_provenance :
+    internalParams =
+      [("HandleListener", "l net.Listener, internal bool"), ("HandleQUICListener", "l *quic.Listener"),
+       ("RegisterControl", "ctlConn net.Conn, loginMsg *msg.Login, internal bool"),
+       ("RegisterWorkConn", "conn net.Conn"),
+       ("RegisterWorkConn", "workConn net.Conn, newMsg *msg.NewWorkConn, internal bool"),
+       ("handleConnection", "ctx context.Context, conn net.Conn, internal bool")] ∧
+    internalIdents =
+      [("HandleListener", "param"), ("HandleListener", "use:param"), ("RegisterControl", "param"),
+       ("RegisterControl", "use:param"), ("RegisterWorkConn", "param"), ("RegisterWorkConn", "use:param"),
+       ("handleConnection", "param"), ("handleConnection", "use:param")] ∧
+    bypassIdents = [("internal", "param"), ("loginMsg", "param")] ∧
+    connBoolFuncs = [] ∧
+    workCfgCond = ["!internal"] := by
+  decide
+
+/- which ssh methods can authenticate at the gateway (what `gwSshCfg` assumes about the code):
+  * the only `ssh.ServerConfig` in the tree is the empty literal of NewGateway; the only authentication fields it is
+    ever given are `NoClientAuth = cfg.AuthorizedKeysFile == ""` and a `PublicKeyCallback` - no PasswordCallback,
+    KeyboardInteractiveCallback, NoClientAuthCallback, GSSAPIWithMICConfig, MaxAuthTries;
+  * of the permissions the ssh layer returns, TunnelServer.Run reads the "user" extension only, and the only
+    field of the virtual client's configuration it overrides is `User` (the token comes from the command line). -/
+open Frp.Gen.AuthGateFacts in
+theorem source_facts_ssh_methods :
+    sshCfgLits = ["pkg/ssh/gateway.go: ssh.ServerConfig{}"] ∧
+    sshCfgWrites =
+      [("pkg/ssh/gateway.go sshConfig.NoClientAuth", "cfg.AuthorizedKeysFile == \"\""),
+       ("pkg/ssh/gateway.go sshConfig.PublicKeyCallback", "func")] ∧
+    gwPermUses = ["Run: sshConn.Permissions", "Run: sshConn.Permissions.Extensions[\"user\"]"] ∧
+    gwClientCfgWrites =
+      [("clientCfg.User", "util.EmptyOr(sshConn.Permissions.Extensions[\"user\"], clientCfg.User)")] := by
+  decide
+
+/-- the model's gateway configuration is the one these facts describe -/
+theorem gwSshCfg_fields (akSet : Bool) (file : Option (List (PubKey × Str))) :
+    (gwSshCfg akSet file).noClientAuth = !akSet ∧ (gwSshCfg akSet file).noClientAuthCb = none ∧
+    (gwSshCfg akSet file).passwordCb = none ∧ (gwSshCfg akSet file).kbdCb = none ∧
+    (gwSshCfg akSet file).gssapi = none ∧ (gwSshCfg akSet file).pubkeyCb.isSome = true :=
+  ⟨rfl, rfl, rfl, rfl, rfl, rfl⟩
+
+/- liveness and the key function:
+  * `lastPing.Store` is called in NewControl and in handlePing only, in handlePing after the plugin call and
+    `VerifyPing`, behind the `return` of the error branch (`handlePing`, `lastPing_step`);
+  * util.GetAuthKey hashes the WHOLE token followed by the decimal timestamp with MD5 and returns the hex digest
+    (what the engine's two independent MD5s compute; `Prim.H`); pkg/auth/token.go compares / sets keys with
+    exactly that function of the configured token and the message's own timestamp. -/
+open Frp.Gen.AuthGateFacts in
+theorem source_facts_liveness_key :
+    lastPingStores =
+      [("NewControl", "ctl.lastPing.Store(time.Now())"), ("handlePing", "ctl.lastPing.Store(time.Now())")] ∧
+    handlePingOrder =
+      ["pluginManager.Ping", "if err == nil", "ctl.authVerifier.VerifyPing", "if err != nil", "return",
+       "lastPing.Store"] ∧
+    authKeySrc =
+      ["func(token string, timestamp int64) (key string)", "md5Ctx := md5.New()", "md5Ctx.Write([]byte(token))",
+       "md5Ctx.Write([]byte(strconv.FormatInt(timestamp, 10)))", "data := md5Ctx.Sum(nil)",
+       "return hex.EncodeToString(data)"] ∧
+    authKeyUses =
+      [("SetLogin", "util.GetAuthKey(auth.token, loginMsg.Timestamp)"),
+       ("SetNewWorkConn", "util.GetAuthKey(auth.token, newWorkConnMsg.Timestamp)"),
+       ("SetPing", "util.GetAuthKey(auth.token, pingMsg.Timestamp)"),
+       ("VerifyLogin", "util.GetAuthKey(auth.token, m.Timestamp)"),
+       ("VerifyNewWorkConn", "util.GetAuthKey(auth.token, m.Timestamp)"),
+       ("VerifyPing", "util.GetAuthKey(auth.token, m.Timestamp)")] := by
+  decide
+
 /-! ## Non-vacuity -/
 
 def exPrim : Prim :=
@@ -1781,13 +2172,25 @@ example : (takeWork { sessions := [{ runId := [97], ctl := 1, vk := .cfg, poolCa
 -- ssh gateway: authorized_keys lists key [65] twice (the later line, user [122], wins) and [66] without a user
 def exFile : Option (List (PubKey × Str)) := some [([65], [97]), ([66], []), ([65], [122])]
 def exTunnel (a : SshAuth) (tok : Str) : Tunnel :=
-  { auth := a, file := exFile, cmd := some { name := [112], user := [], token := tok }, conn := 9, wconn := 10,
+  { reqs := [.none, a], file := exFile, cmd := some { name := [112], user := [], token := tok }, conn := 9, wconn := 10,
     ts := 3, genId := [103] }
-example : sshHandshake true exFile (.pubkey [65] true) = some [122] := by decide
-example : sshHandshake true exFile (.pubkey [65] false) = none := by decide
-example : sshHandshake true exFile (.pubkey [67] true) = none := by decide
-example : sshHandshake true exFile .none = none := by decide
-example : sshHandshake true none (.pubkey [65] true) = none := by decide
+example : sshHandshake true exFile [.none, .pubkey [65] true] = some [122] := by decide
+example : sshHandshake true exFile [.none, .pubkey [65] false] = none := by decide
+example : sshHandshake true exFile [.none, .pubkey [67] true] = none := by decide
+example : sshHandshake true exFile [.none] = none := by decide
+example : sshHandshake true none [.none, .pubkey [65] true] = none := by decide
+-- every other method fails and the client may go on: password (any), keyboard-interactive, gssapi, an unknown key,
+-- then the listed key it can sign for
+example : sshHandshake true exFile [.none, .password [116], .password [], .kbd [[116]], .gssapi, .pubkey [67] true,
+    .pubkey [66] true] = some [] := by decide
+-- … but only six failures are tolerated (`MaxAuthTries`), and a bad signature ends the connection
+example : sshHandshake true exFile [.none, .password [1], .password [2], .password [3], .password [4], .password [5],
+    .password [6], .pubkey [66] true] = none := by decide
+example : sshHandshake true exFile [.none, .pubkey [65] false, .pubkey [66] true] = none := by decide
+example : sshHandshake true exFile [.none, .password [116], .kbd [], .gssapi] = none := by decide
+-- NoClientAuth: the first request of every client ("none") is accepted, without permissions
+example : sshHandshake false none [.none, .password [116]] = some [] := by decide
+example : sshHandshake false none [.password [116], .kbd [], .gssapi, .pubkey [65] true] = none := by decide
 -- an authorized client: tunnel up, always-pass session, proxy named user.name, the keyless work connection pooled
 example : (gwTunnel true Plugins.id exPrim exCfg true exSrv (exTunnel (.pubkey [65] true) [])).2
     = .up [103] [122, 46, 112] := by decide
@@ -1805,6 +2208,41 @@ example : ((gwTunnel true Plugins.id exPrim exCfg false exSrv (exTunnel .none [1
 example : ¬ TunnelAuthorized false (exTunnel .none [116]) := by intro h; cases h.1
 example : ¬ TunnelAuthorized true (exTunnel (.pubkey [67] true) []) := by
   intro h; have := h.2; revert this; decide
+
+-- round 4: key function, liveness, CloseProxy
+
+-- the assumption about the key function is satisfiable: the example `H` (token ++ [ts]) is injective in the token
+example : KeyInjective exPrim.H := by
+  intro a b ts h
+  exact List.append_cancel_right h
+-- … and under it the key of a PREFIX of the token is refused although the token's own key is accepted
+example : (handleFirst Plugins.id exPrim { exCfg with token := [116, 111, 107] } Srv.empty false 1
+    (.login { goodLogin with key := exPrim.H [116, 111] 7 })).2 = { reply := .loginErr, closed := true } := by decide
+example : (handleFirst Plugins.id exPrim { exCfg with token := [116, 111, 107] } Srv.empty false 1
+    (.login { goodLogin with key := exPrim.H [116, 111, 107] 7 })).2.reply = .loginOk [97] := by decide
+-- a history of an invalid heartbeat, NewProxy, CloseProxy, a refused work connection and a refused login naming the
+-- session: lastPing stays where it was; one valid heartbeat moves it
+example : (run Plugins.id exPrim exCfg exSrv
+    [.ping 1 { ts := 3, key := [9] }, .newProxy 1 [112], .closeProxy 1 [112], .closeProxy 1 [113],
+     .first false 7 (.work { runId := [97], ts := 2, key := [1] }),
+     .first false 8 (.login { badLogin with runId := [97] })]).sessions.map (fun s => (s.lastPing, s.proxies)) = [(0, [])] := by
+  decide
+example : (run Plugins.id exPrim exCfg exSrv
+    [.newProxy 1 [112], .ping 1 { ts := 3, key := [116, 3] }]).sessions.map (fun s => (s.lastPing, s.proxies))
+    = [(1, [[112]])] := by decide
+example : ¬ AcceptedPingOn Plugins.id exPrim exCfg exSrv (.ping 1 { ts := 3, key := [9] }) [97] := by
+  rintro ⟨c, m, s, m', he, hs, _, hp, hv⟩
+  cases he
+  simp only [Plugins.id, Option.some.injEq] at hp
+  subst hp
+  have hb : byCtl exSrv 1 = exSrv.sessions.head? := by decide
+  have hh : exSrv.sessions.head? =
+      some ⟨[97], 1, .cfg, 11, [], [], 0⟩ := by decide
+  rw [hh] at hb
+  rw [hb] at hs
+  cases hs
+  revert hv
+  decide
 
 end C04
 end Frp
